@@ -502,9 +502,13 @@ def _fingerprint(v):
     return ("obj", type(v).__name__)
 
 
+MODULE_NAMES = set()
+
+
 def build_function(relpath, qualname, globs, loops=None, unit_name=None, rewrite_comps=True, cuts=None):
     """extract + compile the function, give it `globs` as module globals.  Returns (callable, Extracted)."""
     ex = extract(relpath, qualname, rewrite_comps=rewrite_comps, cuts=cuts)
+    MODULE_NAMES.update(ex.module_names)
     g = dict(globs)
     g.setdefault("__builtins__", builtins)
     g["__vc"] = VC(unit_name or qualname, loops, ex.loops, cuts=cuts)
@@ -536,6 +540,15 @@ def run_paths(body, max_paths=4000, check_feasible=True):
         except RecursionError:
             raise Undecided("recursion limit")
         except CODE_EXC as e:
+            # a failure of the MODEL (a stub or model object lacks something the code uses) is not a failure of the code
+            if isinstance(e, AttributeError) and getattr(e, "obj", None) is not None:
+                mod = getattr(type(e.obj), "__module__", "") or ""
+                if mod.startswith("pyvc") or mod.startswith("contracts") or isinstance(e.obj, types.SimpleNamespace):
+                    raise Undecided("model object %s has no attribute %r (unmodelled)" % (type(e.obj).__name__, getattr(e, "name", "?")))
+            if isinstance(e, NameError) and not isinstance(e, UnboundLocalError):
+                nm = getattr(e, "name", None)
+                if nm and (hasattr(builtins, nm) or nm in MODULE_NAMES):
+                    raise Undecided("global name %r is not provided by the contract's namespace (unmodelled)" % nm)
             tb = traceback.extract_tb(e.__traceback__)
             where = [fr for fr in tb if fr.filename.startswith("<extracted")]
             inside_engine = bool(tb) and not where and all("/pyvc/" in fr.filename or "/contracts/" in fr.filename for fr in tb[1:])
